@@ -207,6 +207,10 @@ func (e *c19Env) completed(msgID string) (done bool, attempts int, err error) {
 var c19Success = map[int]bool{200: true, 201: true, 202: true, 204: true, 102: true}
 
 func checkEnvelope(p *pendingPost, m c19Msg, id string, attempt int, pubAfter, pubBefore time.Time) string {
+	return checkEnvelopeSub(p, m, id, attempt, pubAfter, pubBefore, c19Sub)
+}
+
+func checkEnvelopeSub(p *pendingPost, m c19Msg, id string, attempt int, pubAfter, pubBefore time.Time, subName string) string {
 	if p.req.Method != http.MethodPost {
 		return "method " + p.req.Method
 	}
@@ -246,7 +250,7 @@ func checkEnvelope(p *pendingPost, m c19Msg, id string, attempt int, pubAfter, p
 	if pt.Before(pubAfter) || pt.After(pubBefore) {
 		return fmt.Sprintf("publishTime %v outside the publish call [%v, %v]", pt, pubAfter, pubBefore)
 	}
-	if b.Subscription != c19Sub {
+	if b.Subscription != subName {
 		return "subscription " + b.Subscription
 	}
 	if b.DeliveryAttempt != attempt {
@@ -394,6 +398,76 @@ func runC19(t *testing.T, tier string) int {
 				synctest.Wait()
 			}
 			stop()
+		}
+
+		// ---------------- envelope of a message that reaches a push subscription through
+		// DEAD-LETTERING (forwarded seconds after it was published): still that
+		// message's id, payload, attributes, ordering key and publish time
+		for _, m := range c19Corpus()[:3] {
+			if err := env.w.Restore(env.base); err != nil {
+				t.Fatal(err)
+			}
+			ctx := context.Background()
+			const srcT, dlT, srcS, dlS = "projects/p/topics/dlsrc", "projects/p/topics/dldst", "projects/p/subscriptions/dlsrc", "projects/p/subscriptions/dlpush"
+			for _, tn := range []string{srcT, dlT} {
+				if _, err := env.w.Pub.CreateTopic(ctx, &pubsubpb.Topic{Name: tn}); err != nil {
+					t.Fatal(err)
+				}
+			}
+			if _, err := env.w.Sub.CreateSubscription(ctx, &pubsubpb.Subscription{Name: srcS, Topic: srcT, DeadLetterPolicy: &pubsubpb.DeadLetterPolicy{DeadLetterTopic: dlT, MaxDeliveryAttempts: 1}}); err != nil {
+				t.Fatal(err)
+			}
+			if _, err := env.w.Sub.CreateSubscription(ctx, &pubsubpb.Subscription{Name: dlS, Topic: dlT, PushConfig: &pubsubpb.PushConfig{PushEndpoint: "http://endpoint.invalid/dl"}}); err != nil {
+				t.Fatal(err)
+			}
+			var dlID string
+			if err := env.w.DB.QueryRow("SELECT id FROM subscriptions WHERE name=?", dlS).Scan(&dlID); err != nil {
+				t.Fatal(err)
+			}
+			env.w.SeqTick = true
+			pubAfter := time.Now()
+			resp, err := env.w.Pub.Publish(ctx, &pubsubpb.PublishRequest{Topic: srcT, Messages: []*pubsubpb.PubsubMessage{{Data: m.data, Attributes: m.attrs, OrderingKey: m.key}}})
+			pubBefore := time.Now()
+			if err != nil {
+				t.Fatal(err)
+			}
+			time.Sleep(5 * time.Second)
+			p1, err := env.w.Sub.Pull(ctx, &pubsubpb.PullRequest{Subscription: srcS, MaxMessages: 1, ReturnImmediately: true})
+			if err != nil || len(p1.ReceivedMessages) != 1 {
+				t.Fatalf("dead-letter envelope: first pull: %v %v", p1, err)
+			}
+			if _, err := env.w.Sub.ModifyAckDeadline(ctx, &pubsubpb.ModifyAckDeadlineRequest{Subscription: srcS, AckIds: []string{p1.ReceivedMessages[0].AckId}}); err != nil {
+				t.Fatal(err)
+			}
+			time.Sleep(time.Second)
+			if p2, err := env.w.Sub.Pull(ctx, &pubsubpb.PullRequest{Subscription: srcS, MaxMessages: 1, ReturnImmediately: true}); err != nil || len(p2.ReceivedMessages) != 0 {
+				t.Fatalf("dead-letter envelope: second pull (should forward): %v %v", p2, err)
+			}
+			env.w.SeqTick = false
+			rt := &scriptedRT{open: map[int]*pendingPost{}}
+			pusher := actions.NewHttpPusher(dlS, uuid.MustParse(dlID), "http://endpoint.invalid/dl", &http.Client{Transport: rt}, env.w.Client)
+			pctx, cancel := context.WithCancel(context.Background())
+			done := make(chan error, 1)
+			go func() { done <- pusher.Go(pctx) }()
+			synctest.Wait()
+			envelopeRuns++
+			open := rt.openList()
+			if len(open) != 1 {
+				sink.add(report.Viol{Property: "C19", Check: "C19/envelope-deadlettered", Rule: "not-pushed", Text: fmt.Sprintf("%d POSTs in flight for the dead-lettered message %s", len(open), m.data), Trace: []string{string(m.data)}})
+			} else {
+				if e := checkEnvelopeSub(open[0], m, resp.MessageIds[0], 1, pubAfter, pubBefore, dlS); e != "" {
+					sink.add(report.Viol{Property: "C19", Check: "C19/envelope-deadlettered", Rule: "envelope", Text: "message forwarded to the push subscription's topic 6 s after its publish: " + e, Trace: []string{string(m.data), fmt.Sprint(m.attrs), m.key}})
+				}
+				open[0].answer <- postAnswer{status: 204}
+				synctest.Wait()
+			}
+			cancel()
+			select {
+			case <-done:
+			case <-time.After(time.Hour):
+			}
+			synctest.Wait()
+			actions.WakeAllInternal()
 		}
 
 		// ---------------- envelope fidelity over SEQUENCES on one pusher: every field of
